@@ -219,6 +219,33 @@ pub fn handle(args: &[&str]) -> Option<String> {
                 .collect();
             Some(res.join(","))
         }
+        // the nine operations on operands that were bound to variables and fully evaluated (manifested) before the
+        // comparison runs: a comparison must not depend on whether its operands' elements were forced earlier
+        ["forced", a, b] => {
+            let a = render(a)?;
+            let b = render(b)?;
+            let o = crate::ops_eval::EvalOpts::parse(&[])?;
+            let pre = format!(
+                "local a = {}, b = {}; local n = std.length(std.manifestJsonMinified([a, b])) + (if a == b then 1 else 0); if n < 0 then null else ",
+                a, b
+            );
+            let progs = [
+                format!("{}(a == b)", pre),
+                format!("{}(a != b)", pre),
+                format!("{}std.equals(a, b)", pre),
+                format!("{}(a < b)", pre),
+                format!("{}(a <= b)", pre),
+                format!("{}(a > b)", pre),
+                format!("{}(a >= b)", pre),
+                format!("{}std.__compare(a, b)", pre),
+                format!("{}std.__compare_array(a, b)", pre),
+            ];
+            let res: Vec<String> = progs
+                .iter()
+                .map(|p| canon(&crate::ops_eval::eval_source(p.as_bytes(), &o)))
+                .collect();
+            Some(res.join(","))
+        }
         // the library's comparison functions called by parameter names (spec: a named argument binds the
         // parameter of that name): same nine-slot layout as `all`, unused slots answer `-`
         ["named", a, b] => {
